@@ -40,6 +40,7 @@ def run(eng, rep) -> None:
     rep.rule("R02.4", "values merged into the store by a word write are masked to the word's width")
     rep.rule("R02.5", "two's complement sign reconstruction")
     rep.rule("R02.6", "C++ side (clang AST of requested instantiations): wrapper Encode/Decode grammars == canonical; fcp::Buffer per-bit LSB-first mapping, cursor advance by width, no lossy sub-byte shift")
+    rep.rule("R02.7", "a test of the consumed bit count against the input length that raises rounds the bits up to whole bytes (zero padding in the last byte is canonical)")
     rep.assume("struct native 'f'/'d' = IEEE-754 little-endian on the host; ASCII restriction of strings is not checked")
     cc = find_cursor_class(eng)
     pr = Prims(eng, cc)
@@ -74,6 +75,7 @@ def run(eng, rep) -> None:
         elif tag == "cursor" and v == "violation":
             rep.violation("R02.2", m.file, m.qual, construct, detail)
     r024(eng, rep, pr)
+    r027(eng, rep, cc)
     r023(eng, rep)
     # R02.5 re-uses the R01.5 decision under this property's id
     sub = type(rep)(rep.pid, rep.tier, rep.root, quiet=True)
@@ -82,6 +84,90 @@ def run(eng, rep) -> None:
         rep._add(o["verdict"], "R02.5", o["file"], o["function"], o["construct"], o["detail"])
     from .cpp_codec import run_cpp_wire
     run_cpp_wire(eng, rep, "R02.6")
+
+
+def bits_to_bytes_rounding(e: ast.AST, cattr: str):
+    """e mentions the bit cursor: -> 'floor' | 'ceil' | 'bits' (not converted) | None (not recognised)"""
+    def has_cur(x):
+        return any(isinstance(n, ast.Attribute) and n.attr == cattr for n in ast.walk(x))
+
+    def off(x):  # cursor + k -> k
+        if isinstance(x, ast.Attribute) and x.attr == cattr:
+            return 0
+        if isinstance(x, ast.BinOp) and isinstance(x.op, ast.Add):
+            for a, b in ((x.left, x.right), (x.right, x.left)):
+                if isinstance(b, ast.Constant) and isinstance(b.value, int) and off(a) is not None:
+                    return off(a) + b.value
+        return None
+    if isinstance(e, ast.Call) and dotted(e.func) == "int" and len(e.args) == 1:
+        e = e.args[0]
+    if isinstance(e, ast.Attribute) and e.attr == cattr:
+        return "bits"
+    if isinstance(e, ast.BinOp) and isinstance(e.right, ast.Constant) and ((isinstance(e.op, ast.FloorDiv) and e.right.value == 8) or (isinstance(e.op, ast.RShift) and e.right.value == 3)):
+        k = off(e.left)
+        if k == 0:
+            return "floor"
+        if k == 7:
+            return "ceil"
+        if isinstance(e.left, ast.UnaryOp) and isinstance(e.left.op, ast.USub) and off(e.left.operand) == 0:
+            return "negfloor"
+        return None
+    if isinstance(e, ast.UnaryOp) and isinstance(e.op, ast.USub) and bits_to_bytes_rounding(e.operand, cattr) == "negfloor":
+        return "ceil"
+    if isinstance(e, ast.Call) and (dotted(e.func) or "").split(".")[-1] == "ceil" and len(e.args) == 1:
+        a = e.args[0]
+        if isinstance(a, ast.BinOp) and isinstance(a.op, ast.Div) and isinstance(a.right, ast.Constant) and a.right.value == 8 and off(a.left) == 0:
+            return "ceil"
+    return None
+
+
+# which comparisons `bytes(consumed) OP len(input)` are true for some canonical input (whose length is ceil(bits / 8))
+RAISES_ON_CANONICAL = {"floor": {"NotEq": "whenever the message does not end on a byte boundary", "Lt": "whenever the message does not end on a byte boundary", "LtE": "always",
+                                 "Eq": "whenever the message ends on a byte boundary", "GtE": "whenever the message ends on a byte boundary"},
+                       "ceil": {"LtE": "always", "Eq": "always", "GtE": "always"}}
+FLIP = {"Lt": "Gt", "Gt": "Lt", "LtE": "GtE", "GtE": "LtE", "Eq": "Eq", "NotEq": "NotEq"}
+
+
+def r027(eng, rep, cc) -> None:
+    from ..dataflow import deep_resolve
+    cattr = cc.C.split(".")[-1]
+    entry = eng.prog.functions.get(DEC)
+    mod = entry.module.name if entry else None
+    n = 0
+    for q in sorted(eng.cg.reachable([DEC])):
+        f = eng.prog.functions[q]
+        if f.module.name != mod:
+            continue
+        for st in walk_local(f.node):
+            if not (isinstance(st, ast.If) and any(isinstance(b, ast.Raise) for b in st.body)):
+                continue
+            t = st.test
+            if not (isinstance(t, ast.Compare) and len(t.ops) == 1):
+                continue
+            l, r = deep_resolve(f.node, t.left), deep_resolve(f.node, t.comparators[0])
+            op = type(t.ops[0]).__name__
+            def is_len(x):
+                return isinstance(x, ast.Call) and dotted(x.func) == "len"
+            def cur(x):
+                return any(isinstance(y, ast.Attribute) and y.attr == cattr for y in ast.walk(x))
+            if is_len(l) and cur(r):
+                l, r, op = r, l, FLIP.get(op, op)
+            if not (cur(l) and is_len(r)) or f.cls is not None and f.cls.qual == cc.ci.qual:
+                continue
+            n += 1
+            rd = bits_to_bytes_rounding(l, cattr)
+            site = "if %s: raise" % norm(t, 70)
+            if rd in ("floor", "ceil"):
+                why = RAISES_ON_CANONICAL[rd].get(op)
+                if why:
+                    rep.violation("R02.7", f.file, f.qual, site, "the consumed bits are rounded %s to bytes and the test rejects a canonical encoding %s (the zero-padded last byte is part of the canonical encoding)" % ("down" if rd == "floor" else "up", why))
+                else:
+                    rep.ok("R02.7", f.file, f.qual, site, "never true for a canonical encoding (consumed bits rounded %s)" % rd)
+            elif rd == "bits":
+                rep.violation("R02.7", f.file, f.qual, site, "a bit count is compared with a byte length")
+            else:
+                rep.undecided("R02.7", f.file, f.qual, site, "conversion of the bit count to bytes not recognised")
+    rep.ok("R02.7", "-", "-", "consumed-length tests outside the buffer class", "%d found" % n)
 
 
 def r024(eng, rep, pr: Prims) -> None:
